@@ -523,6 +523,39 @@ Qed.
 Lemma set_pixel_out p x y v : p_w p <= x \/ p_h p <= y -> set_pixel p x y v = None.
 Proof. intros H. unfold set_pixel. rewrite (index_out p x y H). reflexivity. Qed.
 
+(* The byte-at-a-time view of set_pixel: exactly what set_pixel does to byte i, for every i, and the same panic. *)
+Lemma set_pixel_byte_view_spec p x y v i : wf_page p ->
+  set_pixel_byte_view (p_w p) (p_h p) x y v i (nth_error (p_bytes p) (N.to_nat i))
+  = option_map (fun p' => nth_error (p_bytes p') (N.to_nat i)) (set_pixel p x y v).
+Proof.
+  intros Hwf. unfold set_pixel_byte_view.
+  destruct (N.ltb_spec x (p_w p)) as [Hx|Hx]; [destruct (N.ltb_spec y (p_h p)) as [Hy|Hy]|]; cbn [andb].
+  - destruct (set_pixel_in p x y v Hwf Hx Hy) as (byte & bs & Hn & Hb & Hs & ->). cbn [option_map p_bytes].
+    f_equal. destruct (N.eqb_spec i (4 + x * bpc (p_h p) + y / 8)) as [->|Hi].
+    + rewrite Hn. cbv zeta. fold (put_bit byte (y mod 8) v). symmetry. exact (set_nth_same _ _ _ _ Hs).
+    + symmetry. apply (set_nth_other _ _ _ _ _ Hs). intros E. apply Hi. apply N2Nat.inj. exact E.
+  - rewrite set_pixel_out by (right; exact Hy). reflexivity.
+  - rewrite set_pixel_out by (left; exact Hx). reflexivity.
+Qed.
+
+Lemma zero_bytes_view_spec w h i :
+  nth_error (repeatN 0 (total_bytes w h)) (N.to_nat i) = zero_bytes_view w h i.
+Proof.
+  unfold zero_bytes_view. destruct (N.ltb_spec i (total_bytes w h)) as [H|H].
+  - apply repeatN_nth. lia.
+  - apply nth_error_None. rewrite repeatN_length. lia.
+Qed.
+
+Lemma zero_page_wf w h : w < 4294967296 -> h < 4294967296 ->
+  wf_page {| p_w := w; p_h := h; p_bytes := repeatN 0 (total_bytes w h) |}.
+Proof.
+  intros Hw Hh. unfold wf_page, wf_pageb, is_u32. cbn [p_w p_h p_bytes].
+  rewrite repeatN_nlen, N.eqb_refl.
+  destruct (N.ltb_spec w 4294967296); [|lia]. destruct (N.ltb_spec h 4294967296); [|lia].
+  cbn [andb]. rewrite Bool.andb_true_r. apply forallb_repeatN. reflexivity.
+Qed.
+
+
 Lemma set_pixel_None_iff p x y v : wf_page p ->
   (set_pixel p x y v = None <-> (p_w p <= x \/ p_h p <= y)).
 Proof.
